@@ -254,6 +254,25 @@ func init() {
 			}
 			return nil
 		},
+		"RaceBegin": func(fr *frame, args []value) value {
+			if fr.i.sched == nil {
+				panic(fr.i.unsupported("rt.RaceBegin needs the scheduler (\"sched\": true)"))
+			}
+			if fr.i.race == nil {
+				fr.i.race = newRaceState()
+			}
+			fr.i.noteStub("data races: happens-before (vector clocks) over every explored schedule; edges: go, channel send/recv/close + buffer slots, Mutex/RWMutex, WaitGroup, sync/atomic, sync.Map, atomic.Value, timers; accesses by harness frames and package initialisers are not tracked")
+			return nil
+		},
+		"RaceCount": func(fr *frame, args []value) value {
+			if fr.i.race == nil {
+				return 0
+			}
+			for _, r := range fr.i.race.reports {
+				fr.i.noteStub(r)
+			}
+			return len(fr.i.race.reports)
+		},
 		"WatchHits": func(fr *frame, args []value) value { return len(fr.i.watchHits) },
 		"WatchHitsTag": func(fr *frame, args []value) value {
 			// hits on cells registered under the given tag (tags of different purposes never interfere)
@@ -393,6 +412,7 @@ func atomicLoad(fr *frame, args []value) value {
 	if p == nil {
 		panic(fr.i.nilDeref())
 	}
+	fr.i.hbAcqRel(fr.i.curTask, p)
 	return *p
 }
 
@@ -402,6 +422,7 @@ func atomicStore(fr *frame, args []value) value {
 		panic(fr.i.nilDeref())
 	}
 	fr.i.noteStore(p)
+	fr.i.hbAcqRel(fr.i.curTask, p)
 	*p = args[1]
 	return nil
 }
@@ -410,6 +431,7 @@ func atomicSwap(fr *frame, args []value) value {
 	p := args[0].(*value)
 	old := *p
 	fr.i.noteStore(p)
+	fr.i.hbAcqRel(fr.i.curTask, p)
 	*p = args[1]
 	return old
 }
@@ -420,6 +442,7 @@ func atomicAdd(k types.BasicKind) intrinsic {
 			t := types.Typ[k]
 		nv := fr.i.binop(tokenADD, t, t, *p, args[1])
 		fr.i.noteStore(p)
+		fr.i.hbAcqRel(fr.i.curTask, p)
 		*p = nv
 		return nv
 	}
@@ -428,6 +451,7 @@ func atomicAdd(k types.BasicKind) intrinsic {
 func atomicCAS(fr *frame, args []value) value {
 	i := fr.i
 	p := args[0].(*value)
+	i.hbAcqRel(i.curTask, p)
 	var eq value
 	switch old := args[1].(type) {
 	case unsafePtr:
